@@ -12,14 +12,16 @@ import (
 var c20Fixed = []string{
 	"sort(m)", "absent(n)", "m + on (zz) n", "sum(m)", "topk(2, m)", "rate(m[1m])", "m", "scalar(sum(n))", "time()",
 	"sum by (a) (rate(m[2m])) / on (a) sum by (a) (n)", "label_replace(m, \"x\", \"$1\", \"a\", \"(.*)\")", "-m", "m @ end()",
+	"histogram_quantile(0.9, h_bucket)", "histogram_quantile(0.5, sum by (le, a) (h_bucket))", "histogram_quantile(0.9, h_bucket) + on (a) histogram_quantile(0.1, h_bucket)",
+	"{__name__=~\"m.*\"} * 2", "sum by (a) ({__name__=~\"(m|n)2?\"})", "abs({__name__=~\"(m|n)2?\"})", "sum by (a, b, c) (m)", "max by (a) (n)",
 }
 
 func drawHistory(t *rapid.T, forC12 bool) *core.Case {
 	w := gen.DrawWindow(t, gen.WindowOpts{ForceRange: true, MaxSteps: 25, NoTail: true})
 	q := gen.DrawQCtx(t, w)
 	cfg := gen.DrawConfig(t)
-	ds := gen.DrawDataset(t, w, gen.DataOpts{Specials: true, MaxSeries: 8, MinSeries: 2, Lookback: cfg.EffLookback(), Offsets: q.Offsets, Ranges: q.Ranges, Metrics: []string{"m", "m", "n"}})
-	g := gen.NewG(t, q, gen.Profile{MaxDepth: 3}, ds.Cls, w)
+	ds := gen.DrawDataset(t, w, gen.DataOpts{Specials: true, MaxSeries: 10, MinSeries: 2, Lookback: cfg.EffLookback(), Offsets: q.Offsets, Ranges: q.Ranges, Metrics: []string{"m", "m", "n"}, Histogram: true, Twins: true})
+	g := gen.NewG(t, q, gen.Profile{MaxDepth: 3, Nameless: true, HasHist: true}, ds.Cls, w)
 	pool := []string{}
 	np := rapid.IntRange(2, 4).Draw(t, "npool")
 	for i := 0; i < np; i++ {
@@ -44,7 +46,7 @@ func drawHistory(t *rapid.T, forC12 bool) *core.Case {
 		case k <= 4:
 			a.Op = "query"
 			a.Query = rapid.SampledFrom(pool).Draw(t, "q")
-			if rapid.IntRange(0, 3).Draw(t, "inst") == 0 {
+			if rapid.IntRange(0, 2).Draw(t, "inst") == 0 {
 				a.Start = w.Start + int64(rapid.IntRange(0, w.Steps()-1).Draw(t, "at"))*w.Step
 				a.End = a.Start
 			} else {
